@@ -81,6 +81,39 @@ func idxNames(s *schema.Schema) string {
 	return strings.Join(ts, ";")
 }
 
+// exportedClass: the input class of the open finding C01-exported-made-up-index-name-clash -- the names
+// normalizeIdxName makes up for D1's inline UNIQUE constraints (<table>_<columns>) collide with each other or with
+// an index / table name of D1.
+func exportedClass(b Schema) string {
+	seen := map[string]bool{}
+	for _, t := range b.Tables {
+		seen[t.Name] = true
+		for _, i := range t.Idx {
+			seen[i.Name] = true
+		}
+	}
+	for _, t := range b.Tables {
+		for _, u := range t.Uniques {
+			n := t.Name + "_" + strings.Join(u, "_")
+			if seen[n] {
+				return "made-up-index-name-clash"
+			}
+			seen[n] = true
+		}
+	}
+	return "none"
+}
+
+func joinClass(a, b string) string {
+	switch {
+	case b == "none":
+		return a
+	case a == "none":
+		return b
+	}
+	return a + "+" + b
+}
+
 type exCase struct {
 	a, b Schema // a = D2 (current), b = D1 (the exported database)
 	desc string
@@ -127,6 +160,26 @@ func exportedGrid() []exCase {
 			t.FKs = []FK{{Symbol: "", Cols: []string{"age"}, RefTable: "users", RefCols: []string{"id"}, OnDelete: "SET NULL"}}
 			return t
 		}},
+	}
+	// the open finding C01-exported-made-up-index-name-clash: the made-up name is taken
+	for _, cl := range []struct {
+		name string
+		t    Table
+	}{
+		{"clash-index", func() Table {
+			t := base()
+			t.Uniques = [][]string{{"email"}}
+			t.Idx = []Idx{{Name: "users_email", Parts: []Part{{Seq: 1, Col: "email"}}}}
+			return t
+		}()},
+		{"clash-two-uniques", Table{Name: "t", Cols: []Col{intCol("a_b", true), intCol("a", true), intCol("b", true)}, Uniques: [][]string{{"a_b"}, {"a", "b"}}}},
+	} {
+		d1 := Schema{Name: "main", Tables: []Table{cl.t}}
+		out = append(out, exCase{a: Schema{Name: "main"}, b: d1.clone(), desc: "exported-grid:" + cl.name + ":empty"})
+		a := d1.clone()
+		a.Tables[0].Uniques = nil
+		a.Tables[0].Idx = nil
+		out = append(out, exCase{a: a, b: d1.clone(), desc: "exported-grid:" + cl.name + ":no-unique"})
 	}
 	for _, sh := range shapes {
 		d1 := Schema{Name: "main", Tables: []Table{sh.mk()}}
@@ -289,7 +342,7 @@ func runExported(c *ctx) {
 		return
 	}
 	for i, ec := range grid {
-		if c.thorough || i%6 == 0 {
+		if c.thorough || i%6 == 0 || i == 1 {
 			c.exportedCLI(ec.a, ec.b, ec.desc)
 		}
 	}
@@ -320,7 +373,7 @@ func (c *ctx) exportedCLI(a, b Schema, desc string) {
 		c.w.Count("exported.cli-setup-error")
 		return
 	}
-	ic := "input-class=" + classifyFor(a, b, true) + "; "
+	ic := "input-class=" + joinClass(classifyFor(a, b, true), exportedClass(b)) + "; "
 	ins := clirun.Run(dir, nil, "schema", "inspect", "-u", "sqlite://"+d1)
 	if ins.Exit != 0 {
 		c.w.Violation(id, "cli-inspect-failed", ic+fmt.Sprintf("`atlas schema inspect` of a valid database exits %d: %s [%s]", ins.Exit, lastLine(ins.Stderr+ins.Stdout), desc))
